@@ -10,6 +10,7 @@ from hypothesis import strategies as st
 from .. import gen, refmodel, runcheck
 from ..core import CaseResult
 from ..harness import run_program
+from ..program import iter_items
 
 ID = "C03"
 LEVEL = "exploration"
@@ -350,37 +351,9 @@ def _scenario_fails(outcomes, wip):
     return False
 
 
-def check_autoretry(res, case):
-    """behave.contrib.scenario_autoretry: the final statuses are those of the last attempt."""
-    from behave.contrib.scenario_autoretry import patch_scenario_with_autoretry
-    from ..program import all_steps_of, scenario_instances
-    base = copy.deepcopy(case["program"])
-    max_attempts = case["attempts"]
-    base = runcheck.resolve_faults(base)
-    attempts = {}
-
-    def observer(kind, name, context, arg):
-        if kind == "hook" and name == "before_scenario":
-            attempts[arg.name] = attempts.get(arg.name, 0) + 1
-            context._runner  # noqa  (touch)
-            plan_holder["plan"].run_index = attempts[arg.name] - 1
-
-    plan_holder = {}
-
-    def setup(runner, plan):
-        plan_holder["plan"] = plan
-        for f in runner.features:
-            for s in f.walk_scenarios(with_outlines=True):
-                from behave.model import ScenarioOutline
-                if not isinstance(s, ScenarioOutline):
-                    patch_scenario_with_autoretry(s, max_attempts=max_attempts)
-
-    run = run_program(base, observers=[observer], setup=setup)
-    res.evals = 2
-    if run.escaped is not None:
-        res.fail("C03.escape", "exception escaped run(): %r" % (run.escaped,))
-        return
-    # expected: each scenario as in a fresh model run with the outcomes of its final attempt
+def final_attempt_program(base, max_attempts):
+    """The program in which every scenario has the outcomes of its final auto-retry attempt."""
+    from ..program import all_steps_of, scenario_instances, step_outcome
     expected = copy.deepcopy(base)
     for f in expected["features"]:
         for inst in scenario_instances(f):
@@ -394,7 +367,6 @@ def check_autoretry(res, case):
                     if s["o"] == "act":
                         outs.append(s["acts"][a % len(s["acts"])])
                     else:
-                        from ..program import step_outcome
                         outs.append(step_outcome(s, inst["rowdict"]))
                 if not _scenario_fails(outs, wip):
                     break
@@ -402,6 +374,46 @@ def check_autoretry(res, case):
                 if s["o"] == "act":
                     s["o"] = s["acts"][final % len(s["acts"])]
                     s.pop("acts")
+    return expected
+
+
+def autoretry_run(case):
+    """Run case["program"] with behave.contrib.scenario_autoretry applied to every scenario (outlines as a
+    whole or row by row) -> (resolved base program, run)."""
+    from behave.contrib.scenario_autoretry import patch_scenario_with_autoretry
+    base = runcheck.resolve_faults(copy.deepcopy(case["program"]))
+    max_attempts = case["attempts"]
+    attempts = {}
+    plan_holder = {}
+
+    def observer(kind, name, context, arg):
+        if kind == "hook" and name == "before_scenario":
+            attempts[arg.name] = attempts.get(arg.name, 0) + 1
+            plan_holder["plan"].run_index = attempts[arg.name] - 1
+
+    def setup(runner, plan):
+        from behave.model import ScenarioOutline
+        plan_holder["plan"] = plan
+        whole = bool(case.get("whole_outlines"))
+        for f in runner.features:
+            for s in f.walk_scenarios(with_outlines=True):
+                if isinstance(s, ScenarioOutline):
+                    if whole:
+                        patch_scenario_with_autoretry(s, max_attempts=max_attempts)
+                elif not (whole and getattr(s, "_row", None) is not None):
+                    patch_scenario_with_autoretry(s, max_attempts=max_attempts)
+    return base, run_program(base, observers=[observer], setup=setup)
+
+
+def check_autoretry(res, case):
+    """behave.contrib.scenario_autoretry: the final statuses are those of the last attempt."""
+    max_attempts = case["attempts"]
+    base, run = autoretry_run(case)
+    res.evals = 2
+    if run.escaped is not None:
+        res.fail("C03.escape", "exception escaped run(): %r" % (run.escaped,))
+        return
+    expected = final_attempt_program(base, max_attempts)
     fresh = run_program(expected)
     d = _diff(_snap(fresh.features), _snap(run.features))
     if d:
@@ -409,6 +421,9 @@ def check_autoretry(res, case):
                  "statuses after auto-retry differ from a fresh run of the final attempts: %s" % d)
     check_model(res, run.features, None)
     res.label("autoretry")
+    if case.get("whole_outlines") and any(it["k"] == "o" and sum(len(e["rows"]) for e in it["ex"]) >= 2
+                                          for f in base["features"] for it, _r in iter_items(f)):
+        res.label("autoretry:outline-as-a-whole")
     res.nontrivial = True
 
 
@@ -473,15 +488,16 @@ def explore(rec):
     # without reset every scenario must be visited again by the later run: no --stop, no interrupt
     rec.hyp("rerun-no-reset", act_program(with_skip=False, with_interrupt=False, flags=()).map(
         lambda p: {"kind": "rerun", "program": strip_skip(p), "runs": 2, "reset": False}), 700 if quick else 20000)
-    rec.hyp("autoretry", st.builds(lambda p, n: {"kind": "autoretry", "program": strip_skip(p), "attempts": n},
-                                   act_program(allow_bg_acts=False, with_interrupt=False), st.integers(2, 3)),
+    rec.hyp("autoretry", st.builds(lambda p, n, w: {"kind": "autoretry", "program": strip_skip(p), "attempts": n,
+                                                    "whole_outlines": w},
+                                   act_program(allow_bg_acts=False, with_interrupt=False), st.integers(2, 3), st.booleans()),
             700 if quick else 20000)
 
 
 def required_labels(tier):
     return ["status-enum", "synthetic:scenario", "synthetic:outline", "synthetic:feature", "synthetic:rule",
             "run", "cut-short", "hook-fault", "raising-cleanup", "dry-run", "rerun:reset", "rerun:no-reset",
-            "autoretry"]
+            "autoretry", "autoretry:outline-as-a-whole"]
 
 
 def _f2_scenario_skipped(case, detail, info):
